@@ -1,114 +1,20 @@
 /-
-  UnytModel.Driver — line-protocol front end of the executable model (see DESIGN.md §1.2).
-  One tab-separated operation per input line, one output line per operation.
-  Doubles travel as the decimal value of their 64-bit pattern.
+  UnytModel.Driver — dispatch over the per-property opcode handlers and the I/O loop.
 -/
-import UnytModel.Tables
-import UnytModel.Convert
+import UnytModel.Ops.Core
 
 namespace Unyt
 
-structure DriverState where
-  /-- tables of the registries created so far; index 0 is a fresh copy of the default table -/
-  luts : Array (Lut Float) := #[defaultLut Float]
-  pre : Prefixes Float := defaultPrefixes Float
-
-def fb (s : String) : Option Float := floatOfBitsStr s
-
-def parseBool (s : String) : Option Bool :=
-  if s == "1" then some true else if s == "0" then some false else none
-
-def unitOut (u : UnitV Float) : String :=
-  s!"ok\t{bitsStr u.scale}\t{bitsStr u.offset}\t{u.dim.str}\t{bitsStr u.expr.coeff}\t{Factors.str (UExpr.normF u.expr.factors)}"
-
-def parseUnitV (sc off dim co fac : String) : Option (UnitV Float) := do
-  let s ← fb sc
-  let o ← fb off
-  let d ← Dim.parse dim
-  let c ← fb co
-  let f ← Factors.parse fac
-  some ⟨⟨c, f⟩, s, o, d, true⟩
-
-def exceptOut {α} (f : α → String) : Except Err α → String
-  | .ok a => f a
-  | .error e => s!"err\t{e.str}"
+/-- registered handlers, tried in order; an opcode nobody claims answers `bad-op` -/
+def handlers : List Handler := [opsCore]
 
 def step (st : DriverState) (fields : List String) : DriverState × String :=
-  match fields with
-  | ["ping"] => (st, "pong")
-  -- dump of the regenerated tables (the translator is checked against the live objects)
-  | ["dump.lut", k] =>
-    match (st.luts[0]!).find? k with
-    | some e => (st, s!"ok\t{bitsStr e.scale}\t{bitsStr e.offset}\t{e.dim.str}\t{if e.prefixable then 1 else 0}")
-    | none => (st, "none")
-  | ["dump.prefix", k] =>
-    match st.pre.find? k with
-    | some v => (st, s!"ok\t{bitsStr v}")
-    | none => (st, "none")
-  | ["dump.invname", k] => (st, s!"ok\t{canonName k}")
-  -- C14 / C02: a name as the parser sees it → canonical symbol → table entry (+prefix)
-  | ["resolve", name] =>
-    let c := canonName name
-    match resolve st.pre (st.luts[0]!) c with
-    | some e => (st, s!"ok\t{c}\t{bitsStr e.scale}\t{bitsStr e.offset}\t{e.dim.str}")
-    | none => (st, "err\tUnitParseError")
-  | ["splitprefix", s] =>
-    let (p, w) := splitPrefix st.pre (st.luts[0]!) s
-    (st, s!"ok\t{p}\t{w}")
-  -- C02: Unit(expr) against registry `r`
-  | ["unit", r, co, fac] =>
-    match r.toNat?, fb co, Factors.parse fac with
-    | some ri, some c, some f =>
-      if h : ri < st.luts.size then
-        match UnitV.ofExpr st.pre st.luts[ri] ⟨c, f⟩ with
-        | .ok (u, t') => ({ st with luts := st.luts.set ri t' }, unitOut u)
-        | .error e => (st, s!"err\t{e.str}")
-      else (st, "bad-op")
-    | _, _, _ => (st, "bad-op")
-  -- C05: unit algebra on explicit unit values
-  | ["umul", s1, o1, d1, c1, f1, s2, o2, d2, c2, f2] =>
-    match parseUnitV s1 o1 d1 c1 f1, parseUnitV s2 o2 d2 c2 f2 with
-    | some u, some v => (st, exceptOut unitOut (u.mul v))
-    | _, _ => (st, "bad-op")
-  | ["udiv", s1, o1, d1, c1, f1, s2, o2, d2, c2, f2] =>
-    match parseUnitV s1 o1 d1 c1 f1, parseUnitV s2 o2 d2 c2 f2 with
-    | some u, some v => (st, exceptOut unitOut (u.div v))
-    | _, _ => (st, "bad-op")
-  | ["upow", s1, o1, d1, c1, f1, p] =>
-    match parseUnitV s1 o1 d1 c1 f1, parseRat p with
-    | some u, some q => (st, exceptOut unitOut (u.pow q))
-    | _, _ => (st, "bad-op")
-  | ["ueq", s1, o1, d1, c1, f1, s2, o2, d2, c2, f2] =>
-    match parseUnitV s1 o1 d1 c1 f1, parseUnitV s2 o2 d2 c2 f2 with
-    | some u, some v => (st, s!"ok\t{if UnitV.eqFloat u v then 1 else 0}")
-    | _, _ => (st, "bad-op")
-  -- C03: the affine conversion rule
-  | ["conv", sA, oA, pA, sB, oB, pB, x] =>
-    match fb sA, fb oA, parseBool pA, fb sB, fb oB, parseBool pB, fb x with
-    | some sA, some oA, some pA, some sB, some oB, some pB, some x =>
-      let f := convFactorP pA sA oA pB sB oB
-      (st, s!"ok\t{bitsStr f.1}\t{bitsStr f.2}\t{bitsStr (applyConv f x)}")
-    | _, _, _, _, _, _, _ => (st, "bad-op")
-  -- C03: Unit(A).get_conversion_factor(Unit(B)) and its application, units built by the model
-  | ["convunits", r, cA, fA, cB, fB, x] =>
-    match r.toNat?, fb cA, Factors.parse fA, fb cB, Factors.parse fB, fb x with
-    | some ri, some cA, some fA, some cB, some fB, some x =>
-      if h : ri < st.luts.size then
-        match UnitV.ofExpr st.pre st.luts[ri] ⟨cA, fA⟩ with
-        | .error e => (st, s!"err\t{e.str}")
-        | .ok (uA, t1) =>
-          match UnitV.ofExpr st.pre t1 ⟨cB, fB⟩ with
-          | .error e => (st, s!"err\t{e.str}")
-          | .ok (uB, t2) =>
-            let st := { st with luts := st.luts.set ri t2 }
-            match getConversionFactor st.pre t2 uA uB with
-            | .error e => (st, s!"err\t{e.str}")
-            | .ok f =>
-              let o := match f.2 with | some o => bitsStr o | none => "none"
-              (st, s!"ok\t{bitsStr f.1}\t{o}\t{bitsStr (applyFactor f x)}")
-      else (st, "bad-op")
-    | _, _, _, _, _, _ => (st, "bad-op")
-  | _ => (st, "bad-op")
+  let rec go : List Handler → DriverState × String
+    | [] => (st, "bad-op")
+    | h :: hs => match h st fields with
+      | some r => r
+      | none => go hs
+  go handlers
 
 partial def loop (h : IO.FS.Stream) (out : IO.FS.Stream) (st : DriverState) : IO Unit := do
   let line ← h.getLine
